@@ -11,7 +11,8 @@ EXPLANATION = (
     "locally iff it is SERVER. R2: clients that connect after events were buffered are excluded in every arm. R3: the sender "
     "identity attached to a received client event is the entity the transport tagged the message with (SERVER for local "
     "re-emission). R4: the client sends through its persistent cursor (no fresh cursor), once per event. R5: client events whose "
-    "entities cannot be mapped are not sent. R6: channel kinds of the events' channels come from the registration argument.")
+    "entities cannot be mapped are not sent. R6: channel kinds of the events' channels come from the registration argument."
+    " R5 also: the record of unmapped entities never outlives the event it belongs to (tested and emptied before every exit of the wrapper, also when the inner serialiser fails - D18, found and fixed).")
 NOT_DECIDED = "exactly-once / ordering over the transport and across connect/authorize/disconnect histories; at-most-once of unreliable channels is the transport's contract"
 TRUSTED_BASE = ["Bevy EventCursor::read yields each event once per cursor", "Events::drain empties both buffers"]
 
@@ -302,14 +303,12 @@ def r4_cursor(ctx):
 
 def r5_mapping(ctx):
     F = ctx.F
+    import rules.C04 as C04
+    C04.unmapped_record_does_not_leak(ctx, "client_event::ClientEvent::serialize", "ClientEvent::serialize")
+    C04.unmapped_record_does_not_leak(ctx, "server_event::ServerEvent::deserialize", "ServerEvent::deserialize")
     se = ctx.fn("client_event::ClientEvent::serialize")
     tr = tracer(se)
-    oks = [(bb, i, s) for bb, i, s in se.statements() if s["s"] == "assign" and s["place"] == {"l": 0, "p": []} and s["rvalue"]["rv"] == "agg" and s["rvalue"].get("variant") == "Ok"]
-    ctx.check(len(oks) == 1, "ClientEvent::serialize/ok-site", site_of(se), "%d Ok results" % len(oks))
-    for bb, i, s in oks:
-        g = [(c, o) for (_, c, o) in required_outcomes(F, se, bb) if c["kind"] == "boolcall" and c["name"].endswith("::is_empty")]
-        ok = any(o == {True} and any(x.path and x.path[-1][2] == "invalid_entities" for x in tr.operand(c["args"][0])) for c, o in g)
-        ctx.check(ok, "ClientEvent::serialize/ok-only-when-all-mapped", site_of(se, bb), "an event referencing entities unknown to the server is serialised successfully")
+    C04.success_only_when_all_mapped(ctx, "client_event::ClientEvent::serialize", "ClientEvent::serialize", "an event referencing entities unknown to the server is serialised successfully")
     dm = ctx.fn("client_event::default_serialize_mapped")
     ctx.check(any(callee_decl(t).endswith("MapEntities::map_entities") for _, t in dm.calls()), "default_serialize_mapped/maps", site_of(dm), "mapped client events are not mapped")
     ts = ctx.fn("client_trigger::trigger_serialize")
